@@ -144,7 +144,7 @@ def DECOY_HEADER(box, velz):
     return dict(BoxSizeHMpc=float(box) * 0.6736, BoxSizeMpc=float(box), hMpc=0, H0=67.36, VelZSpace_to_Canonical=float(velz) / 3.0, ParticleMassHMsun=2.1e9, ParticleMassMsun=3.1e9, InitialRedshift=99.0, ScaleFactor=1 / 1.5, NP=64**3)
 
 
-def make_tree(rng, nslab=3, slab_inds=None, halos_per_slab=None, box=500.0, velz=1234.5, ppd=64, nprev=2, compression=None, gap_prob=0.5, zero_part_prob=0.15, cleaned_away_prob=0.15, merge_prob=0.4, trailing=True, sim='SimA', smallratio=False, root=None, max_np=12, int_header=False, clean_layout=1, big_ints=False):
+def make_tree(rng, nslab=3, slab_inds=None, halos_per_slab=None, box=500.0, velz=1234.5, ppd=64, nprev=2, compression=None, gap_prob=0.5, zero_part_prob=0.15, cleaned_away_prob=0.15, merge_prob=0.4, trailing=True, sim='SimA', smallratio=False, root=None, max_np=12, int_header=False, clean_layout=1, big_ints=False, giant=None):
     root = root or tempfile.mkdtemp(prefix='verif_cat_')
     if slab_inds is None:
         slab_inds = list(range(nslab))
@@ -184,6 +184,8 @@ def make_tree(rng, nslab=3, slab_inds=None, halos_per_slab=None, box=500.0, velz
         for ab in 'AB':
             npout = rng.integers(1, max_np, H).astype(np.uint32)
             npout[rng.random(H) < zero_part_prob] = 0
+            if giant and H and slab == slab_inds[0]:
+                npout[H // 2] = giant + (7 if ab == 'B' else 0)  # one halo with more than 2^16 subsample particles of its own
             gaps = np.where(rng.random(H) < gap_prob, rng.integers(1, 6, H), 0)
             start = np.zeros(H, dtype=np.uint64)
             off = 0
@@ -214,6 +216,13 @@ def make_tree(rng, nslab=3, slab_inds=None, halos_per_slab=None, box=500.0, velz
         raw['N'] = (raw['npoutA'].astype(np.int64) + raw['npoutB'] + rng.integers(0, 500, H)).astype(np.uint32)
         N_merge = (clean['npoutA_merge'].astype(np.int64) + clean['npoutB_merge'] + np.where(clean['npoutA_merge'] > 0, rng.integers(0, 50, H), 0)).astype(np.uint32)
         clean['N_merge'] = N_merge
+        if giant and H and slab == slab_inds[0]:
+            # ... whose cleaned particle count is an exact multiple of 2^16 (and a second halo with exactly 2^16)
+            cleaned_away[H // 2] = False
+            raw['N'][H // 2] = np.uint32(3 * 65536 - int(N_merge[H // 2]))
+            if H > 2:
+                cleaned_away[0] = False
+                raw['N'][0] = np.uint32(65536 - int(N_merge[0]))
         clean['N_total'] = np.where(cleaned_away, 0, raw['N'].astype(np.int64) + N_merge).astype(np.uint32)
         clean['haloindex'] = rng.integers(0, 1 << 40, H).astype(np.uint64)
         clean['is_merged_to'] = np.where(cleaned_away, rng.integers(0, 1 << 40, H), -1).astype(np.int64)
@@ -224,6 +233,7 @@ def make_tree(rng, nslab=3, slab_inds=None, halos_per_slab=None, box=500.0, velz
         clean['sigmav3d_L2com_mainprog'] = rng.uniform(0, 0.01, (H, nprev)).astype(np.float32)
         if big_ints:  # 64-bit identifiers that no float64 holds exactly (top bit region + odd)
             _big_ints(raw, clean)
+            _big_counts(raw, clean)
         next_id += H
         truth['slabs'][slab] = dict(raw=raw, clean=clean, parts=parts, cparts=cparts, H=H, cleaned_away=cleaned_away)
         comp = compression
@@ -239,6 +249,13 @@ def make_tree(rng, nslab=3, slab_inds=None, halos_per_slab=None, box=500.0, velz
         )
     truth['halo_fns'] = [os.path.join(zdir, 'halo_info', f'halo_info_{s:03d}.asdf') for s in slab_inds]
     return truth
+
+
+def _big_counts(raw, clean):
+    """particle counts beyond 2^31 (they are unsigned 32-bit on disk)"""
+    bump = np.where(np.arange(len(raw['N'])) % 2 == 0, np.uint32(1 << 31), np.uint32(0)).astype(np.uint32)
+    raw['N'] = (raw['N'].astype(np.uint32) % np.uint32(1 << 30) + bump).astype(np.uint32)
+    clean['N_total'] = np.where(clean['N_total'] > 0, raw['N'].astype(np.int64) + clean['N_merge'].astype(np.int64), 0).astype(np.uint32)
 
 
 def _big_ints(*tables):
